@@ -102,7 +102,7 @@ def body_sort(case, ctx):
 
 @st.composite
 def plain_case(draw, tier):
-    return {"a": draw(gen.ragged(tier)), "axis": draw(st.sampled_from([-1, 1, None])), "lz": draw(st.sampled_from(LAZY_CHOICES))}
+    return {"a": draw(gen.ragged(tier, wide=True)), "axis": draw(st.sampled_from([-1, 1, None])), "lz": draw(st.sampled_from(LAZY_CHOICES))}
 
 
 def body_unique(case, ctx):
@@ -132,7 +132,7 @@ def body_unique(case, ctx):
 
 @st.composite
 def unique_case(draw, tier):
-    return {"a": draw(gen.ragged(tier, dup=draw(st.booleans()))), "axis": draw(st.sampled_from([-1, 1, -1, 1, None])),
+    return {"a": draw(gen.ragged(tier, dup=draw(st.booleans()), wide=True)), "axis": draw(st.sampled_from([-1, 1, -1, 1, None])),
             "counts": draw(st.booleans()), "lz": draw(st.sampled_from(LAZY_CHOICES))}
 
 
@@ -154,7 +154,7 @@ def body_diff(case, ctx):
 
 @st.composite
 def diff_case(draw, tier):
-    return {"a": draw(gen.ragged(tier)), "n": draw(st.sampled_from([0, 1, 1, 1, 2, 2, 3, 4, 5])), "pass_n": draw(st.booleans()),
+    return {"a": draw(gen.ragged(tier, wide=True)), "n": draw(st.sampled_from([0, 1, 1, 1, 2, 2, 3, 4, 5])), "pass_n": draw(st.booleans()),
             "axis": draw(st.sampled_from([-1, 1, None])), "lz": draw(st.sampled_from(LAZY_CHOICES))}
 
 
